@@ -383,6 +383,10 @@ func runC08(c *core.Ctx) {
 				for j := 0; j < k.R.IntN(4); j++ {
 					k.Do(pickS(k.R, []string{"edit-mod", "edit-rm", "edit-rmdir", "edit-new", "edit-new"}))
 				}
+				// also perturb the staging area so that it differs from HEAD's snapshot
+				for j := 0; j < k.R.IntN(3); j++ {
+					k.Do(pickS(k.R, []string{"add", "rm", "add"}))
+				}
 				k.resetWithReflog(22)
 			} else {
 				k.Step()
